@@ -169,6 +169,16 @@ func runCLI(c *core.Ctx, r *cliReq) {
 	if strings.TrimSpace(out) != "" {
 		lines = strings.Split(strings.TrimSpace(out), "\n")
 	}
+	if failure != "" {
+		// a failing command also prints its error message on stdout: keep the trees only
+		var trees []string
+		for _, l := range lines {
+			if strings.HasSuffix(strings.TrimSpace(l), ";") {
+				trees = append(trees, l)
+			}
+		}
+		lines = trees
+	}
 	if len(lines) > len(refs) || (failure == "" && len(lines) != len(refs)) {
 		all("unreadable:"+core.Escape(fmt.Sprintf("%d trees written for %d read", len(lines), len(refs))), "")
 		return
@@ -209,6 +219,12 @@ func replayCLI(c *core.Ctx, f []string) {
 	}
 	r.random, _ = strconv.Atoi(f[6])
 	r.seed, _ = strconv.Atoi(f[7])
+	// corpus requests may carry a second input tree after the (ignored) output fields
+	if len(f) > 13 && f[13] != "" {
+		if r.extra, err = core.ParseDump(f[13]); err != nil {
+			panic(err)
+		}
+	}
 	runCLI(c, r)
 }
 
